@@ -1,9 +1,9 @@
 (* C08: crash analysis of the ClientHello well-formedness checks (model regenerated from
    tlslite/tlsconnection.py:_serverGetClientHello by translator/crashlite.py).
    - the generated proof script (Gen/ChChecksProof.v) shows: for EVERY abstract ClientHello,
-     settings and hostname oracle the region crashes at most at the sites of ch_known_sites;
-   - here: each of those sites IS reachable (abstract witnesses, by computation), so the full
-     crash-freedom statement is refuted and the list is tight. *)
+     settings and hostname oracle the region crashes at most at the sites of ch_known_sites,
+     which is EMPTY on the current /repo: full crash-freedom;
+   - the former refutation witnesses (see below) now end in alerts. *)
 From Coq Require Import ZArith List Bool String.
 From TV Require Import Base.Prelude Base.C08_Lib Gen.ChChecks Gen.ChChecksProof Model.C08_Known.
 Import ListNotations.
@@ -44,32 +44,25 @@ Definition w_empty_versions_10 : ClientHello_r := mk_ch (3, 1) [x_versions None]
 
 Definition ivh0 (_ : list Z) : bool := true.
 
-Lemma ch_site_decoder_error_1 :
-  ChChecks w_empty_identity st0 ivh0 = Crash "AttributeError" "AlertDescription.decoder_error#1".
+(* The four abstract values below were the refutation witnesses before /repo commits b10bb95
+   (AlertDescription.decoder_error -> decode_error) and 5fb1773 (empty supported_versions =>
+   decode_error): the model regenerated from the code then returned
+     Crash "AttributeError" "AlertDescription.decoder_error#1" / "#2",
+     Crash "TypeError" "iter:ext.versions#1", Crash "TypeError" "in:ver_ext.versions#1".
+   On the fixed code each of them ends in the decode_error alert (by computation). *)
+Lemma ch_former_witness_1 : ChChecks w_empty_identity st0 ivh0 = Alert 50.
 Proof. vm_compute. reflexivity. Qed.
-Lemma ch_site_decoder_error_2 :
-  ChChecks w_empty_binder st0 ivh0 = Crash "AttributeError" "AlertDescription.decoder_error#2".
+Lemma ch_former_witness_2 : ChChecks w_empty_binder st0 ivh0 = Alert 50.
 Proof. vm_compute. reflexivity. Qed.
-Lemma ch_site_iter_versions :
-  ChChecks w_empty_versions_12 st0 ivh0 = Crash "TypeError" "iter:ext.versions#1".
+Lemma ch_former_witness_3 : ChChecks w_empty_versions_12 st0 ivh0 = Alert 50.
 Proof. vm_compute. reflexivity. Qed.
-Lemma ch_site_in_versions :
-  ChChecks w_empty_versions_10 st0 ivh0 = Crash "TypeError" "in:ver_ext.versions#1".
+Lemma ch_former_witness_4 : ChChecks w_empty_versions_10 st0 ivh0 = Alert 50.
 Proof. vm_compute. reflexivity. Qed.
 
-Lemma ch_crash_free_refuted_l :
-  exists ch st ivh, is_crash (ChChecks ch st ivh) = true.
-Proof. exists w_empty_identity, st0, ivh0. rewrite ch_site_decoder_error_1. reflexivity. Qed.
-
-Lemma ch_known_sites_all_reachable :
-  forall s, In s ch_known_sites -> exists ch st ivh k, ChChecks ch st ivh = Crash k s.
+(* FULL crash-freedom of the ClientHello checks *)
+Lemma ch_crash_free_l : forall ch st ivh, ncrash (ChChecks ch st ivh).
 Proof.
-  intros s H. cbn [ch_known_sites In] in H.
-  destruct H as [<-|[<-|[<-|[<-|[]]]]].
-  - exists w_empty_identity, st0, ivh0, "AttributeError"%string. exact ch_site_decoder_error_1.
-  - exists w_empty_binder, st0, ivh0, "AttributeError"%string. exact ch_site_decoder_error_2.
-  - exists w_empty_versions_12, st0, ivh0, "TypeError"%string. exact ch_site_iter_versions.
-  - exists w_empty_versions_10, st0, ivh0, "TypeError"%string. exact ch_site_in_versions.
+  intros. apply crash_in_nil_ncrash. exact (ChChecks_crash_sites ch st ivh).
 Qed.
 
 (* a well-formed TLS 1.3 hello passes the region (the hypotheses-free theorem is not vacuous) *)
@@ -86,5 +79,3 @@ Lemma ch_alert_example :
   = Alert 50.
 Proof. vm_compute. reflexivity. Qed.
 
-Lemma ch_crash_sites_l : forall ch st ivh, crash_in ch_known_sites (ChChecks ch st ivh).
-Proof. exact ChChecks_crash_sites. Qed.
